@@ -77,6 +77,11 @@ Fixpoint to_value (w : wtree) : value :=
   | W 15 i _ => VEnum i
   | W 16 i _ => VVar i
   | W 17 _ ks => VList (map to_value ks)
+  | W 18 _ kvs =>
+      VObj (map (fun kv => match kv with
+                           | W _ _ (k :: x :: _) => (to_str k, to_value x)
+                           | _ => ([], VNull)
+                           end) kvs)
   | _ => VNull
   end.
 
@@ -93,6 +98,7 @@ Definition to_typedef (w : wtree) : type_def :=
   | W 41 _ _ => TEnum (to_strs (kid 0 w))
   | W 42 _ _ => TObject (map to_fielddef (w_kids (kid 0 w))) (to_strs (kid 1 w))
   | W 43 _ _ => TInterface (map to_fielddef (w_kids (kid 0 w)))
+  | W 46 i _ => TInput (map to_argdef (w_kids (kid 0 w))) (negb (nth 0 i 0 =? 0))
   | _ => TUnion (to_strs (kid 0 w))
   end.
 Definition to_schema (w : wtree) : schema :=
@@ -167,6 +173,7 @@ Fixpoint of_value (v : value) : wtree :=
   | VEnum x => W 15 x []
   | VVar x => W 16 x []
   | VList l => W 17 [] (map of_value l)
+  | VObj kvs => W 18 [] (map (fun kv => W 51 [] [of_str 0 (fst kv); of_value (snd kv)]) kvs)
   end.
 
 Fixpoint of_json (j : json) : wtree :=
